@@ -44,3 +44,14 @@ package ciphersuite
 //@ ensures aad-is-what-was-built: result1 == nil && pkt.Header.ContentType != 25 ==> sameSlice(argBytes("AEAD.Seal", 4), retBytes("generateAEADAdditionalData", 0))
 //@ ensures aad-cid-is-what-was-built: result1 == nil && pkt.Header.ContentType == 25 ==> sameSlice(argBytes("AEAD.Seal", 4), retBytes("generateAEADAdditionalDataCID", 0))
 //@ end
+
+// CBC suites have no nonce; what makes a record unique under the MAC key is the (epoch, 48-bit sequence number) pair in
+// the MAC pseudo header (RFC 5246 6.2.3.1 seq_num = epoch(2) || sequence_number(6) at octets 0..7, RFC 6347 4.1.2.1).
+// Every one of the 64 bits enters the HMAC at its own octet, so that two records with different (epoch, sequence
+// number) never have the same MAC input and the peer's implementation computes the same MAC.
+//@ define SEQNUM64(b) (len(b) == 13 && b[0] == byte(epoch >> 8) && b[1] == byte(epoch) && b[2] == byte(sequenceNumber >> 40) && b[3] == byte(sequenceNumber >> 32) && b[4] == byte(sequenceNumber >> 24) && b[5] == byte(sequenceNumber >> 16) && b[6] == byte(sequenceNumber >> 8) && b[7] == byte(sequenceNumber))
+//@ func CBC.hmac
+//@ watch Hash.Write
+//@ ensures c09-epoch-and-sequence-number-in-mac-input: always("Hash.Write", "sameSlice(argBytes(\"Hash.Write\", 1), payload) || SEQNUM64(argBytes(\"Hash.Write\", 1))")
+//@ ensures c09-pseudo-header-first: result1 == nil ==> ncalls("Hash.Write") == 2 && !always("Hash.Write", "sameSlice(argBytes(\"Hash.Write\", 1), payload)")
+//@ end
